@@ -258,8 +258,15 @@ def shadow_check(name):
         if any(u is None for u in L.u) or L.status.residual is None:
             return
         val, full, scale = ctx.shadow.residual(L, ln, L.params.residual_type)
+        own_inc = None
+        if name == 'post_iteration' and L.params.get('e_tol'):
+            # what the increment-based stopping criterion is about to compute: |u_M of this iteration - u_M before it|
+            uo = getattr(L, 'uold', None)
+            if uo is not None and uo[-1] is not None and L.u[-1] is not None:
+                own_inc = float(np.max(np.abs(np.asarray(uo[-1]) - np.asarray(L.u[-1])))) if np.asarray(L.u[-1]).size else 0.0
         ctx.shadow_recs.append(
             {
+                'own_inc': own_inc,
                 'at': name,
                 'block': ctx.block,
                 'slot': S.status.slot,
@@ -317,6 +324,10 @@ def apply_soft(ctx, S, faults):
         if f['kind'] == 'add':
             scale = max(abs(L.u[m]), 1e-300)
             L.u[m] = L.u[m] + f['rel'] * scale
+        elif f['kind'] == 'nan':
+            g = P.dtype_u(P.init, val=0.0)
+            np.asarray(g).reshape(-1)[:] = np.nan
+            L.u[m] = g
         else:  # garbage of the right type
             rnd = random.Random(f"garbage/{f['seed']}")
             g = P.dtype_u(P.init, val=0.0)
